@@ -71,21 +71,6 @@ theorem C04_blend (ext : Bool) (xs ys : List α) (zs : List (List α)) (x y : α
   simp only [Lanes.map4]
   rw [blend_eq]
 
-/-- a knot is one of the two ends of its own bracket -/
-theorem knot_bracket {xs : List α} {a i : Nat} (hs : StrictInc xs) (ha : a < xs.length)
-    (hb : Bracket xs xs[a] i) : a = i ∨ a = i + 1 := by
-  have hn := hs.1
-  have hin : InRange xs xs[a] :=
-    ⟨by omega, hs.le_of_le (Nat.zero_le a) ha, hs.le_of_le (by omega) (by omega)⟩
-  have hlt := hb.lt_len
-  obtain ⟨b1, b2⟩ := hb.between' hs hin
-  by_contra hcon
-  simp only [not_or] at hcon
-  rcases Nat.lt_or_ge a i with h1 | h1
-  · exact absurd b1 (not_le.mpr (hs.2 a i h1 (by omega)))
-  · have : i + 1 < a := by omega
-    exact absurd b2 (not_le.mpr (hs.2 (i + 1) a this ha))
-
 /-- **C04_gridline**: on the grid line `x = xs[a]` Bilinear is Linear along `y` on row `a`
     (for every `y`, in range, rejected or extrapolated alike). -/
 theorem C04_gridline (ext : Bool) (xs ys : List α) (zs : List (List α)) (a : Nat) (y : α)
